@@ -41,13 +41,17 @@ def run_trace_job(job):
     os.makedirs(tdir, exist_ok=True)
     trace = os.path.join(tdir, name + "-%s.ndjson" % key[:8])
     progs = trace + ".progs"
-    if job.get("progfile"):
+    if job["driver"] == "suite":
+        rc, out, dt = run_suite(job, trace)
+        cmd = None
+    elif job.get("progfile"):
         cmd = [os.path.join(bindir, job["driver"]), "--prog", job["progfile"],
                "--shard", "%d/%d" % (job["shard"], job["nshards"]), "--out", trace, "--dump-progs", progs]
     else:
         cmd = [os.path.join(bindir, job["driver"]), "--gen", job["gen"], "--tier", job["tier"], "--seed", str(job["seed"]),
                "--shard", "%d/%d" % (job["shard"], job["nshards"]), "--out", trace, "--dump-progs", progs]
-    rc, out, dt = run(cmd, timeout=job.get("driver_timeout", 1800))
+    if cmd is not None:
+        rc, out, dt = run(cmd, timeout=job.get("driver_timeout", 1800))
     res = dict(job=job, driver_rc=rc, driver_wall=dt, fails=[], drift=[], events=0, monitors=[], cached=False, samples=[], crash=None)
     if rc != 0:
         # a crash (abort, signal) of the code under test is a recorded outcome
@@ -129,6 +133,40 @@ def run_trace_job(job):
                     failing_ps.add(f["p"])
                 except Exception:
                     pass
+    # arena-level view of a collection / string run (API hooks): regrouped per arena, validated by the arena specs
+    arenaf = trace + ".arena"
+    if job.get("monitors_arena") and os.path.exists(arenaf):
+        grouped = arenaf + ".g"
+        group_api_trace(arenaf, grouped, 0, 1, job.get("cap", 40000))
+        for part in split_trace(grouped, job.get("max_events", 40000)):
+            for mod in job["monitors_arena"]:
+                r = tlc.validate_trace(mod, part, timeout=job.get("tlc_timeout", 1800))
+                res["monitors"].append(dict(module=mod, generated=r["generated"], distinct=r["distinct"], accepted=r["accepted"],
+                                            wall=r["wall"], tool_error=r["tool_error"], rejected=r["rejected"]))
+                for t in r["drift"]:
+                    try:
+                        res["drift"].append(dict(name=t[1], line=t[2], p=t[3][0], i=t[3][1], op=t[3][2], ma=t[3][3],
+                                                 witness=t[4] if len(t) > 4 else None, gen=job["gen"], profile=job["profile"]))
+                    except Exception:
+                        pass
+                for t in r["fails"]:
+                    try:
+                        f = dict(property=t[1], formula=t[2], line=t[3], p=t[4][0], i=t[4][1], op=t[4][2], ma=t[4][3],
+                                 witness=t[5] if len(t) > 5 else None, source=mod, gen=job["gen"], profile=job["profile"],
+                                 features=job.get("features"), driver=job["driver"])
+                        res["fails"].append(f)
+                        failing_ps.add(f["p"])
+                    except Exception:
+                        pass
+                if r["rejected"] and not r["tool_error"]:
+                    res["fails"].append(dict(property="*", formula="TraceRejected", line=-1, p=-1, i=-1, op="", ma=0, witness=r["rejected"][0],
+                                             source=mod, gen=job["gen"], profile=job["profile"], features=job.get("features"), driver=job["driver"]))
+            if part != grouped:
+                os.remove(part)
+        try:
+            os.remove(grouped)
+        except OSError:
+            pass
     isof = trace + ".iso"
     if job.get("monitors_iso") and os.path.exists(isof):
         for mod in job["monitors_iso"]:
@@ -144,7 +182,7 @@ def run_trace_job(job):
                     failing_ps.add(f["p"])
                 except Exception:
                     pass
-    for x in (syncf, isof):
+    for x in (syncf, isof, arenaf):
         try:
             os.remove(x)
         except OSError:
@@ -176,6 +214,52 @@ def run_trace_job(job):
             pass
     cache_put("tj-" + key, res)
     return res
+
+def group_api_trace(raw, out, shard, nshards, cap):
+    """API-level traces interleave the arenas of a whole process: regroup by arena (p), keep a prefix of at most
+    `cap` events per arena (a prefix of a trace is a trace), take this shard's arenas."""
+    import collections
+    ev = collections.OrderedDict()
+    with open(raw, errors="replace") as f:
+        for line in f:
+            try:
+                p = json.loads(line)["p"]
+            except Exception:
+                continue
+            if p % nshards != shard:
+                continue
+            l = ev.setdefault(p, [])
+            if len(l) < cap:
+                l.append(line)
+    n = 0
+    with open(out, "w") as o:
+        for p, lines in ev.items():
+            o.writelines(lines)
+            n += len(lines)
+    return len(ev), n
+
+_suite_raw = {}
+def run_suite(job, trace):
+    """The repository's own integration tests (harness/tests/repo_all.rs includes tests/all/*.rs unchanged), run
+    against the working tree with the API hooks recording every arena operation they perform."""
+    t0 = time.time()
+    hdir = os.path.join(VERIF, "harness")
+    prof = ["--release"] if job["profile"] == "rel" else []
+    raw = os.path.join(WORK, "traces", "suite-raw-%s-%s.ndjson" % (job["profile"], tree_hash()[:12]))
+    lock = _suite_raw.setdefault(raw, __import__("threading").Lock())
+    with lock:
+        if not os.path.exists(raw + ".done"):
+            rc, out, _ = run(["cargo", "test", "--offline", "--test", "repo_all"] + prof + ["--", "--test-threads", "4"], cwd=hdir,
+                             env={"BUMPALO_VERIF_APITRACE": raw, "CARGO_NET_OFFLINE": "true"}, timeout=job.get("driver_timeout", 1800))
+            ok = rc == 0 and "test result: ok" in out
+            if "could not compile" in out or "error[E" in out:
+                raise ToolError("the repository's tests do not compile against the working tree:\n" + out[-3000:])
+            open(raw + ".done", "w").write(json.dumps(dict(rc=rc, ok=ok, tail=out[-1500:])))
+        st = json.loads(open(raw + ".done").read())
+    if not st["ok"]:
+        return (st["rc"] or 1), st["tail"], time.time() - t0
+    na, n = group_api_trace(raw, trace, job["shard"], job["nshards"], job.get("cap", 3000))
+    return 0, "programs=%d events=%d" % (na * job["nshards"], n), time.time() - t0
 
 def split_trace(path, max_events):
     """split at program boundaries ("i":0) into files of at most ~max_events lines"""
